@@ -272,4 +272,5 @@ func genMix(p *Plan, r *RNG, bias string) {
 		}
 	}
 	p.QuietNS = int64(r.PickInt([]int{5, 30, 700})) * sec
+	addFaults(p, r, faultLevel(r))
 }
